@@ -101,7 +101,8 @@ DEFAULT_A = {'sentinel': 'A'}
 DEFAULT_B = ['sentinel', 'B']
 
 
-def make_app(asgi, kind, ctype, doc, hist, out, counter, propagate, prerender=False, custom_resp=False):
+def make_app(asgi, kind, ctype, doc, hist, out, counter, propagate, prerender=False, custom_resp=False,
+             handler_variant=None):
     cls = falcon.asgi.App if asgi else falcon.App
     if custom_resp:
         # a Response subclass (no overrides): the app must go through render_body() itself
@@ -109,6 +110,13 @@ def make_app(asgi, kind, ctype, doc, hist, out, counter, propagate, prerender=Fa
         app = cls(response_type=type('Resp', (base,), {}))
     else:
         app = cls()
+    if handler_variant == 'bytes_dumps':
+        # a third-party JSON library style: dumps() returns bytes (orjson), loads() takes str or bytes
+        hb = falcon.media.JSONHandler(dumps=lambda o: json.dumps(o, ensure_ascii=False).encode('utf-8'),
+                                      loads=json.loads)
+        app.req_options.media_handlers['application/json'] = hb
+        app.resp_options.media_handlers['application/json'] = falcon.media.JSONHandler(
+            dumps=lambda o: json.dumps(o, ensure_ascii=False).encode('utf-8'), loads=json.loads)
     if '+json' in ctype:
         h = falcon.media.JSONHandler()
         app.req_options.media_handlers['application/vnd.api+json'] = h
@@ -294,11 +302,13 @@ def run(ctx):
     cut_draws = [ch.draw(1000, 'cut') for _ in range(n_cuts)]
     prerender = [0, 0, 1, 2][ch.draw(4, 'prerender')]
     custom_resp = ch.draw(3, 'custom_response_type') == 2
+    handler_variant = 'bytes_dumps' if ch.draw(4, 'handler_variant') == 3 else None
+    omit_cl = ch.draw(4, 'omit_content_length') == 3      # ASGI only: chunked upload without Content-Length
     short_reads = False     # a single read() is what the handlers do; buffered wsgi.input returns it all
 
     # ---- step 1: serialize through the real response path ---------------------------
     out1 = []
-    app1 = make_app(asgi, kind, ctype, doc, [], out1, lambda: 0, False, prerender, custom_resp)
+    app1 = make_app(asgi, kind, ctype, doc, [], out1, lambda: 0, False, prerender, custom_resp, handler_variant)
     holder = {}
     if asgi:
         conn, fin, exc, _s = asgi_request(ctx, app1, 'GET', '/doc', [], [{'type': 'http.request'}], holder,
@@ -395,7 +405,8 @@ def run(ctx):
     ctx.plan = {'stack': 'asgi' if asgi else 'wsgi', 'kind': kind, 'ctype': ctype, 'doc': doc, 'history': hist,
                 'fault': list(fault) if fault else None, 'body': body1.decode('utf-8', 'replace')[:200],
                 'propagate': propagate, 'cuts': n_cuts, 'short_reads': short_reads,
-                'prerender': prerender, 'custom_response_type': custom_resp}
+                'prerender': prerender, 'custom_response_type': custom_resp,
+                'handler_variant': handler_variant, 'omit_content_length': omit_cl and asgi}
     ctx.plan_key = json.dumps(ctx.plan, sort_keys=True, default=repr)
 
     # ---- step 2: send the bytes back ------------------------------------------------------
@@ -405,7 +416,7 @@ def run(ctx):
         def counter():
             c = holder.get('conn')
             return c.recv_calls if c else 0
-        app2 = make_app(True, kind, ctype, doc, hist, out, counter, propagate)
+        app2 = make_app(True, kind, ctype, doc, hist, out, counter, propagate, handler_variant=handler_variant)
         cuts = sorted(set(c % (len(body2) + 1) for c in cut_draws))
         if fault is not None and fault[0] == 'ioerror':
             cuts = sorted(set(cuts + [len(body2) // 2])) or [1]
@@ -417,7 +428,9 @@ def run(ctx):
                   for i, p in enumerate(parts)]
         if truncated:
             events.append({'type': 'http.disconnect'})
-        hdrs = [('Content-Type', ctype), ('Content-Length', str(declared))]
+        hdrs = [('Content-Type', ctype)]
+        if not (omit_cl and fault is None):
+            hdrs.append(('Content-Length', str(declared)))
         conn, fin, exc, sig = asgi_request(ctx, app2, 'POST', '/echo', hdrs, events, holder, recv_suspends,
                                            predeliver, fail_recv_at=(1,) if fault == ('ioerror',) else ())
         status2 = conn.monitor.status
@@ -436,7 +449,7 @@ def run(ctx):
 
         def counter():
             return len(inp.calls)
-        app2 = make_app(False, kind, ctype, doc, hist, out, counter, propagate)
+        app2 = make_app(False, kind, ctype, doc, hist, out, counter, propagate, handler_variant=handler_variant)
         envd = make_environ(method='POST', path='/echo', body_input=inp, content_length=declared,
                             content_type=ctype)
         ex = WsgiExchange(ctx)
